@@ -53,6 +53,7 @@ Proof.
   destruct (read_ext_ts fmt s1 l2) as [[s2 l3]|e|e] eqn:E3; try discriminate.
   apply read_ext_ts_length in E3.
   unfold compose_body.
+  destruct (rv_grow_received v && (h_len (s_hdr s2) <? s_len s2)); [discriminate|].
   destruct (read_body l3 (needed_size v (cs_chunk st) s2) (s_rbuf s2)) as [[rbuf l4]|] eqn:E4; try discriminate.
   apply read_body_length in E4.
   cbn [s_len s_hdr].
